@@ -27,17 +27,19 @@ def main() -> int:
     signal.setitimer(signal.ITIMER_REAL, budget)
     t0 = time.perf_counter()
     try:
-        r = ['ok', p.get_next(Instant.from_timestamp_nanos(dt_ns)).timestamp_nanos()]
+        try:
+            r = ['ok', p.get_next(Instant.from_timestamp_nanos(dt_ns)).timestamp_nanos()]
+        except InfiniteLoopDetectedError:
+            r = ['raise', 'InfiniteLoopDetectedError']
+        except LocationNotSetError:
+            r = ['raise', 'LocationNotSetError']
+        except Exception as e:  # noqa: BLE001
+            r = ['raise', type(e).__name__]
+        finally:
+            signal.setitimer(signal.ITIMER_REAL, 0)
     except Budget:
-        r = ['budget']
-    except InfiniteLoopDetectedError:
-        r = ['raise', 'InfiniteLoopDetectedError']
-    except LocationNotSetError:
-        r = ['raise', 'LocationNotSetError']
-    except Exception as e:  # noqa: BLE001
-        r = ['raise', type(e).__name__]
-    finally:
         signal.setitimer(signal.ITIMER_REAL, 0)
+        r = ['budget']
     json.dump([r, round(time.perf_counter() - t0, 2)], sys.stdout)
     return 0
 
